@@ -12,6 +12,8 @@ Sub-driver for M-TYPES.
   types cparse <tmpl> <s:…>                regexp parse → `ok …` | `err`
   types enum <members> <bind|result|rt> <id>  members `name>obj,…` → `ok id` | `none`
                                            (rt = result ∘ bind: what the property observes)
+  types expand <hasSingle> <escaped> <n>   processors present on the n expanded elements (0/1 each)
+  types ipk <explicit> <py> <stored> <shift>  inserted_primary_key of a pk whose result processor adds <shift>
   types bool <N|0|1>                       → round trip through boolBind/intToBoolean
 -/
 namespace SaVerif.Drv.Types
@@ -85,6 +87,23 @@ def handle : List String → String
       | some v => "ok " ++ toString v
       | none => "none"
     | _, _ => "bad-op"
+  | ["expand", hasSingle, escaped, n] =>
+    match n.toNat? with
+    | some k =>
+      if (hasSingle != "0" && hasSingle != "1") || (escaped != "0" && escaped != "1") then "bad-op" else
+      let procs : List (Nat × Nat) := if hasSingle == "1" then [(1, 7)] else []
+      let esc := if escaped == "1" then 2 else 1
+      let ex := expandBind procs 1 esc k
+      if k == 0 then "-" else
+      ",".intercalate ((List.range k).map (fun j => if (ex.lookup (esc, j + 1)).isSome then "1" else "0"))
+    | none => "bad-op"
+  | ["ipk", explicit, py, stored, shift] =>
+    match py.toInt?, stored.toInt?, shift.toInt? with
+    | some p, some st, some sh =>
+      if explicit == "1" then toString (insertedPk (· + sh) (some p) st)
+      else if explicit == "0" then toString (insertedPk (· + sh) none st)
+      else "bad-op"
+    | _, _, _ => "bad-op"
   | ["bool", b] =>
     let v : Option (Option Bool) := match b with
       | "N" => some none | "0" => some (some false) | "1" => some (some true) | _ => none
